@@ -238,6 +238,7 @@ class HistoryRunner:
         argv = ["redo" if kind == "redo" else "redo-ifchange"] + [spell(t, cwd) for t in targets]
         pre = {p: (f.data, f.ver, f.owner) for p, f in m.fs.items()}
         nested = has_nested_csum(m)
+        self.pre_csum = {t: r.csum for t, r in m.rec.items()}
         ok_model = m.cmd_redo(targets) if kind == "redo" else m.cmd_ifchange(targets)
         res = runner.run_cmd(disk, argv, cwd=cwd, env_extra=self.env)
         self.out.commands += 1
@@ -334,21 +335,18 @@ class HistoryRunner:
             if cex != mex:
                 extra = sorted((cex - mex).elements())
                 missing = sorted((mex - cex).elements())
-                if nested and not missing:
-                    ev["c02:excluded-nested-csum-overbuild"] += 1
-                    self.out.diverged = "nested-csum-overbuild"
-                    return
-                else:
-                    prop = "C02"
-                    self.violate(prop, "exec-set", dict(ctx, extra=extra, missing=missing),
-                                 {"symptom": "extra" if extra and not missing else
-                                  ("missing" if missing and not extra else "both"), "oob": m.oob_used})
+                self.violate("C02", "exec-set", dict(ctx, extra=extra, missing=missing),
+                             {"symptom": "extra" if extra and not missing else
+                              ("missing" if missing and not extra else "both"),
+                              "nested_csum": bool(nested and not missing)})
             if self.pending_changes and mex and len(set(mex)) < len(m.targets):
                 self.out.nontrivial = True
             if not self.pending_changes and not mex:
                 ev["c02:repeat-runs-nothing"] += 1
             for c in self.pending_changes:
                 ev["c02:after-" + c] += 1
+        if "csum" in ch:
+            self.check_csum(targets, ok, ex, cex, mex, nested, ctx)
         if "calls" in ch:
             got = collections.Counter((t, k, rc == 0) for (t, rc, k) in calls)
             want = collections.Counter(m.calls)
@@ -364,6 +362,82 @@ class HistoryRunner:
             s = disk.stray_files()
             if s:
                 self.violate("C04", "stray-tmp", dict(ctx, stray=s), {"symptom": "stray"})
+
+    def stamped(self, t):
+        r = self.m.rule_for(t)
+        return r is not None and any(s[0] == "stamp" for s in self.m.dofiles[r[0]]["body"])
+
+    def depth_to(self, roots, c):
+        """Length of the shortest current-rule dependency path from any requested target to c."""
+        m = self.m
+        frontier = [(t, 0) for t in roots]
+        seen = set(roots)
+        while frontier:
+            t, d = frontier.pop(0)
+            if t == c:
+                return d
+            rule = m.rule_for(t)
+            f = m.fs.get(t)
+            if rule is None or (f is not None and f.owner == "user"):
+                continue
+            dof, dodir, a1, a2, _ = rule
+            for stt in m.dofiles[dof]["body"]:
+                qs = []
+                if stt[0] in ("dep", "softdep"):
+                    qs = stt[2]
+                elif stt[0] == "depstem":
+                    qs = [posixpath.normpath(posixpath.join(dodir, a2 + stt[2]))]
+                elif stt[0] == "ifc" and m.exists(stt[1]):
+                    qs = [stt[1]]
+                for q in qs:
+                    if q not in seen:
+                        seen.add(q)
+                        frontier.append((q, d + 1))
+        return None
+
+    def check_csum(self, targets, ok, ex, cex, mex, nested, ctx):
+        m = self.m
+        ev = self.out.events
+        pre = self.pre_csum
+        for c in sorted(set(ex)):
+            if not self.stamped(c) or c not in mex:
+                continue
+            r = m.rec.get(c)
+            changed = (r is None) or (r.csum != pre.get(c))
+            strict = [t for t in targets if t != c and c in m.closure(t)]
+            if strict:
+                self.out.nontrivial = True
+                d = self.depth_to(strict, c)
+                ev["c03:%s/depth%s/%s" % ("changed" if changed else "unchanged",
+                                          "1" if d == 1 else ">=2", "oob" if m.oob_used else "inband")] += 1
+            dependents = [d for d in m.targets if d != c and c in m.closure(d)]
+            if not changed:
+                # (a) stops: nothing that depends on c runs unless the model says it has another reason to
+                extra = [d for d in (cex - mex).elements() if d in dependents]
+                if extra:
+                    self.violate("C03", "not-stopped", dict(ctx, csum_target=c, extra=sorted(extra)),
+                                 {"symptom": "extra", "nested_csum": bool(nested)})
+            elif ok:
+                # (b) forwards: every *direct* dependent inside the requested closure ran in this very command
+                # (a dependent behind another checksummed target may legitimately be cut off there), and so did
+                # every indirect dependent the reference model says must run
+                clos = set()
+                for t in targets:
+                    clos |= m.closure(t)
+                direct = [d for d in dependents if self.depth_to([d], c) == 1]
+                missing = [d for d in direct if d in clos and d not in cex]
+                missing += [d for d in (mex - cex).elements() if d in dependents and d not in missing]
+                if missing:
+                    self.violate("C03", "not-forwarded", dict(ctx, csum_target=c, missing=sorted(missing)),
+                                 {"symptom": "missing", "oob": m.oob_used})
+        if cex != mex:
+            extra = sorted((cex - mex).elements())
+            missing = sorted((mex - cex).elements())
+            if extra and not missing and nested:
+                self.violate("C03", "not-stopped", dict(ctx, extra=extra),
+                             {"symptom": "extra", "nested_csum": True})
+            self.out.diverged = "exec-set"
+            ev["diverged:exec-set"] += 1
 
     def do_query(self, which, cwd):
         pass
